@@ -166,9 +166,12 @@ CsMenu(s, o) == IF o.mac = s /\ ~o.tok /\ o.cpk = None
 \* the full menus (swapped signatures, keys, challenges) are used once the blob passes.
 BlobOK(s, h, o) == o.mac = s /\ ~(now > o.t + ChalTTL) /\ ~o.tok /\ o.host = h
 CanSign(k, g) == k = "kA" \/ (IF Explicit THEN g \in sigs ELSE g.host = CHost /\ g.ch # 0)
+\* ... for this hostname, and - the replay of a final leg that was produced for another hostname - for
+\* the hostname the blob was minted for
 BestTries(s, h, o) ==
-  {<<Sg(k, "cli", o.ch, SrvKey(s), h), IF o.cpk = None THEN k ELSE None, IF o.cpk = None THEN ANonce ELSE 0>> :
-      k \in {x \in {"kA", "kC"} : (o.cpk = None \/ o.cpk = x) /\ CanSign(x, Sg(x, "cli", o.ch, SrvKey(s), h))}}
+  {t \in {<<Sg(k, "cli", o.ch, SrvKey(s), hh), IF o.cpk = None THEN k ELSE None, IF o.cpk = None THEN ANonce ELSE 0>> :
+              hh \in {h, o.host}, k \in {"kA", "kC"}} :
+      (o.cpk = None \/ o.cpk = t[1].key) /\ CanSign(t[1].key, t[1])}
 Tries(s, h, o) ==
   IF BlobOK(s, h, o)
   THEN {<<g, pk, c>> : g \in SigsForS(s, h, o), pk \in PkMenu(o), c \in CsMenu(s, o)}
